@@ -176,6 +176,21 @@ def render_region(hdr, dirs):
         elif k == "body-start":
             # structural anchor: first thing inside the function body (robust against edits of statements)
             inserts.append((ct[bopen][3], "\n" + payload + "\n"))
+        elif k == "body-end":
+            # structural anchor: before the tail expression of the body, i.e. after the last `;` (or block-statement `}`)
+            # at nesting depth 1 of the function body
+            j = bopen + 1
+            last = None
+            while j < bclose:
+                if ct[j][0] == "punct" and ct[j][1] in "([{":
+                    j = rustlex.match_close(ct, j)
+                    if ct[j][1] == "}" and j + 1 < bclose:
+                        last = j
+                elif ct[j][0] == "punct" and ct[j][1] == ";":
+                    last = j
+                j += 1
+            off = ct[last][3] if last is not None else ct[bopen][3]
+            inserts.append((off, "\n" + payload + "\n"))
         elif k == "ret":
             name = d["arg"].strip()
             # find `->` at depth 0 between kw and bopen
